@@ -9,6 +9,7 @@ import (
 	"os"
 	"path/filepath"
 	"testing"
+	"time"
 
 	"verif/hx"
 	"verif/vnet"
@@ -24,10 +25,25 @@ type c04cfg struct {
 	starttls   string // absent | offered | required
 	cert       string // valid | wrong-host | unknown-issuer | expired
 	reconnect  bool
+	// earlier: another client of the same process, for another domain (other.example, whose server holds a certificate
+	// valid for that name only) and sharing the application's *tls.Config, connects first: whatever the library keeps
+	// between connections - a prepared configuration, a session cache, a verified name - belongs to that domain
+	earlier bool
+	// appSender: a goroutine of the application calls SendRaw while the connection under test is being made (the
+	// library documents no restriction on when Send may be called, and with a StreamManager the application does not
+	// even know that a reconnection is going on)
+	appSender bool
 }
 
 func (c c04cfg) name() string {
-	return fmt.Sprintf("insecure=%v/tls=%s/servername=%s/starttls=%s/cert=%s/reconnect=%v", c.insecure, c.tlsMode, c.serverName, c.starttls, c.cert, c.reconnect)
+	n := fmt.Sprintf("insecure=%v/tls=%s/servername=%s/starttls=%s/cert=%s/reconnect=%v", c.insecure, c.tlsMode, c.serverName, c.starttls, c.cert, c.reconnect)
+	if c.earlier {
+		n += "/earlier=other-domain"
+	}
+	if c.appSender {
+		n += "/app-sender"
+	}
+	return n
 }
 
 var c04sensitive = []string{"<auth", "<iq", "<presence", "<message", "<enable", "<resume"}
@@ -86,20 +102,74 @@ func c04body(sc c04cfg) func() {
 			Credential:             Password("secret"),
 			Insecure:               sc.insecure,
 		}
+		if sc.earlier {
+			var recs0 []*negRec
+			var conns0 []*srvConn
+			listen(w, "other.example:5222", func(k int) *negCfg {
+				if k > 0 {
+					return nil
+				}
+				return &negCfg{domain: "other.example", starttls: "required", cert: "wrong-host", mechs: []string{"PLAIN"}, session: "absent", pick: defaultPick}
+			}, &recs0, &conns0)
+			cfg0 := &Config{
+				TransportConfiguration: TransportConfiguration{Address: "other.example:5222", Domain: "other.example", TLSConfig: tc},
+				Jid:                    "user@other.example/r",
+				Credential:             Password("secret0"),
+				Insecure:               sc.insecure,
+			}
+			if cl0, err := NewClient(cfg0, NewRouter(), func(error) {}); err == nil {
+				if err := cl0.Connect(); err == nil {
+					cl0.Disconnect()
+				} else if sc.serverName == "" {
+					vrt.Fail("C04|harness|earlier-connection", "the earlier client, whose server holds a certificate valid for its domain, failed: %v", err)
+					return
+				}
+				vrt.WaitIdle()
+			}
+		}
 		cl, err := NewClient(cfg, NewRouter(), func(error) {})
 		if err != nil {
 			vrt.Fail("C04|harness|newclient", "%v", err)
 			return
+		}
+		fromHandler := false
+		var handlerErr error
+		appSender := func() {
+			for i := 0; i < 3; i++ {
+				_ = cl.SendRaw("<message to='a@example.org'><body>from the application</body></message>")
+				vrt.Sleep(time.Millisecond)
+			}
 		}
 		if sc.reconnect {
 			if err := cl.Connect(); err != nil {
 				vrt.Fail("C04|harness|first-connection", "the all-valid first connection failed: %v", err)
 				return
 			}
+			if sc.appSender {
+				// the sender is already at work when the first connection is lost, and the reconnection is made from
+				// the Disconnected handler as a StreamManager makes it: nothing waits for the sender to be done
+				srvSkipApp = true
+				cl.SetHandler(func(e Event) error {
+					if e.State.state == StateDisconnected && !fromHandler {
+						fromHandler = true
+						handlerErr = cl.Resume()
+					}
+					return nil
+				})
+				vrt.Go("app-sender", appSender)
+			}
 			drop = true
 			vrt.WaitIdle()
 		}
-		err = cl.Connect()
+		srvSkipApp = sc.appSender
+		if sc.appSender && !sc.reconnect {
+			vrt.Go("app-sender", appSender)
+		}
+		if fromHandler {
+			err = handlerErr
+		} else {
+			err = cl.Connect()
+		}
 		vrt.Log("connect ok=%v", err == nil)
 		if err == nil {
 			_ = cl.SendRaw("<message to='a@example.org'><body>hello</body></message>")
@@ -132,7 +202,11 @@ func c04body(sc c04cfg) func() {
 		ctx := fmt.Sprintf("%s, server steps %v", sc.name(), rec.Steps)
 		for _, kw := range c04sensitive {
 			if bytes.Contains(clear.Bytes(), []byte(kw)) && !sc.insecure {
-				vrt.Fail("C04|cleartext-"+kw[1:]+"|starttls="+sc.starttls+"|reconnect="+fmt.Sprint(sc.reconnect), "%s: %q written in clear text although insecure connections were not allowed", ctx, kw)
+				k := "C04|cleartext-" + kw[1:] + "|starttls=" + sc.starttls + "|reconnect=" + fmt.Sprint(sc.reconnect)
+				if sc.appSender {
+					k += "|app-sender"
+				}
+				vrt.Fail(k, "%s: %q written in clear text although insecure connections were not allowed", ctx, kw)
 			}
 		}
 		for _, u := range conn.Units {
@@ -146,7 +220,8 @@ func c04body(sc c04cfg) func() {
 			}
 		}
 		// sanity of the harness itself: with everything valid and TLS offered the connection must work
-		if sc.cert == "valid" && sc.starttls != "absent" && sc.serverName != "other" && rec.FailStep == "" && err != nil {
+		if sc.cert == "valid" && sc.starttls != "absent" && sc.serverName != "other" && rec.FailStep == "" && err != nil && !sc.appSender {
+			// (bytes that the application writes into the middle of a handshake may well make it fail)
 			vrt.Fail("C04|valid-tls-rejected|tls="+sc.tlsMode+"|servername="+sc.serverName, "%s: Connect failed: %v", ctx, err)
 		}
 		vrt.Log("steps %v tlsdone=%v", rec.Steps, rec.TLSDone)
@@ -186,6 +261,26 @@ func TestVerifC04(t *testing.T) {
 						sc := c04cfg{insecure: insecure, tlsMode: tm, serverName: sn, starttls: st, cert: cert}
 						scs = append(scs, hx.Scenario{Name: sc.name(), Opt: vrt.Options{Bound: thoroughBound(2)}, Body: c04body(sc), Verdict: c04verdict})
 					}
+				}
+			}
+		}
+		// after another client of the same process, for another domain, sharing the TLS configuration object
+		for _, tm := range []string{"default-roots", "custom-roots", "skip-verify"} {
+			for _, sn := range []string{"", "other"} {
+				for _, st := range []string{"offered", "required"} {
+					for _, cert := range []string{"valid", "wrong-host"} {
+						sc := c04cfg{insecure: insecure, tlsMode: tm, serverName: sn, starttls: st, cert: cert, earlier: true}
+						scs = append(scs, hx.Scenario{Name: sc.name(), Opt: vrt.Options{Bound: thoroughBound(2)}, Body: c04body(sc), Verdict: c04verdict})
+					}
+				}
+			}
+		}
+		// a goroutine of the application sending while the connection is made
+		if !insecure {
+			for _, rc := range []bool{false, true} {
+				for _, st := range []string{"offered", "required"} {
+					sc := c04cfg{tlsMode: "custom-roots", starttls: st, cert: "valid", reconnect: rc, appSender: true}
+					scs = append(scs, hx.Scenario{Name: sc.name(), Opt: vrt.Options{Bound: thoroughBound(2)}, Body: c04body(sc), Verdict: c04verdict})
 				}
 			}
 		}
